@@ -49,7 +49,10 @@ RULE = ("One case = one whole event history applied to a fresh FSM (kinds fsm / 
         "Reset(0) while the harness holds the FSM mutex, so the production callback closure runs with the generation "
         "it captured; X fires the most recently dropped timer object (superseded generation), conc op F fires the "
         "timer that was pending before A while A is parked; Y is the exported Timeout(). Restore() and Kill() are driven as extra ops R / K in every canonical state "
-        "and inside random walks. Non-trivial: the history produced at least one send or callback. "
+        "and inside random walks. Kind disp: the caller internal/ppp Dispatcher.HandleFrame with a real LCP/IPCP/IPv6CP "
+        "behind it (7 prefixes x 8 phases x 8 protocol numbers x 25 frames, Length-field and truncation variants, raw "
+        "short frames, random walks); compared per operation: the three states, tagged sends/callbacks, host "
+        "callbacks, error class. Non-trivial: the history produced at least one send or callback. "
         "Distinct: by case text. The distribution records how many (state, RFC event class) cells of the 10x17 table "
         "were exercised and how many conc cases really overlapped.")
 TRUSTED = ["the option handler is abstracted to the class of its answer (good/nak/rej/both) for the automaton; "
